@@ -139,6 +139,9 @@ func ToWalletAddr(protoAddr *Address) (map[wallet.BackendID]wallet.Address, erro
 			return nil, fmt.Errorf("failed to read key: %w", err)
 		}
 		addr := wallet.NewAddress(wallet.BackendID(k))
+		if addr == nil {
+			return nil, fmt.Errorf("unknown backend id %d", k)
+		}
 		if err := addr.UnmarshalBinary(protoAddr.GetAddressMapping()[i].GetAddress()); err != nil {
 			return nil, fmt.Errorf("failed to unmarshal address for key %d: %w", k, err)
 		}
@@ -281,9 +284,15 @@ func ToAllocation(protoAlloc *Allocation) (alloc *channel.Allocation, err error)
 	if err != nil {
 		return nil, errors.WithMessage(err, "backends")
 	}
+	if len(alloc.Backends) != len(protoAlloc.GetAssets()) {
+		return nil, errors.New("number of backends and assets differ")
+	}
 	alloc.Assets = make([]channel.Asset, len(protoAlloc.GetAssets()))
 	for i := range protoAlloc.GetAssets() {
 		alloc.Assets[i] = channel.NewAsset(alloc.Backends[i])
+		if alloc.Assets[i] == nil {
+			return nil, errors.Errorf("unknown backend id %d", alloc.Backends[i])
+		}
 		err = alloc.Assets[i].UnmarshalBinary(protoAlloc.GetAssets()[i])
 		if err != nil {
 			return nil, errors.WithMessagef(err, "%d'th asset", i)
